@@ -25,9 +25,10 @@ Trace     == ndJsonDeserialize(TraceFile)
 
 VARIABLES l,      \* next line to consume
           g,      \* ghost
-          res     \* verdicts so far
+          res,    \* verdicts so far
+          cnt     \* per clause: on how many steps its antecedent was true (vacuity guard)
 
-tvars == <<l, g, res>>
+tvars == <<l, g, res, cnt>>
 
 DbOf(j)  == [np |-> Range(j.np), nps |-> Range(j.nps), mb |-> Range(j.mb),
              mbs |-> Range(j.mbs), msgs |-> j.msgs, anom |-> Range(j.anom)]
@@ -88,7 +89,7 @@ ObsOf(k) ==
    db |-> S.db, udb |-> S.udb, now |-> S.now,
    db2 |-> DbOf(ln.db), udb2 |-> UdbOf(ln.udb), now2 |-> ln.now]
 
-TInit == l = 1 /\ g = G0 /\ res = <<>>
+TInit == l = 1 /\ g = G0 /\ res = <<>> /\ cnt = [p \in PropIds |-> 0]
 
 TNext ==
   /\ l <= Len(Trace)
@@ -112,8 +113,9 @@ TNext ==
      IN /\ dbg
         /\ g' = g2
         /\ res' = r2
+        /\ cnt' = [p \in PropIds |-> IF Ante(p, g0, o, g2) THEN cnt[p] + 1 ELSE cnt[p]]
         /\ l' = l + 1
-        /\ (l = Len(Trace)) => JsonSerialize(OutFile, [lines |-> Len(Trace), res |-> r2])
+        /\ (l = Len(Trace)) => JsonSerialize(OutFile, [lines |-> Len(Trace), res |-> r2, cnt |-> cnt'])
 
 TSpec == TInit /\ [][TNext]_tvars
 =============================================================================
